@@ -826,8 +826,11 @@ func (ts tasks) responses(rpcLog RPCLogger) jmessages {
 		if rsp.ID == nil {
 			rsp.ID = json.RawMessage("null")
 		}
-		if task.m == nil {
-			// No method was ever assigned for this task, so it was never run.
+		if task.ctx == nil {
+			// No context was ever attached to this task, so it holds no ID
+			// reservation (it was rejected before assignment). A task that
+			// was checked but found no handler does hold one, which must be
+			// released when its error is delivered.
 			rsp.err = errTaskNotExecuted
 		}
 		if task.err == nil {
